@@ -23,6 +23,8 @@ mod p12;
 mod rsim;
 mod p13;
 mod p14;
+#[cfg(dsi_bitstream_verif_shuttle)]
+mod p15;
 mod p18;
 
 use driver::*;
@@ -78,6 +80,11 @@ macro_rules! families {
             }
             "C14" => {
                 type $f = p14::C14;
+                $body
+            }
+            #[cfg(dsi_bitstream_verif_shuttle)]
+            "C15" => {
+                type $f = p15::C15;
                 $body
             }
             "C18" => {
